@@ -192,10 +192,17 @@ func (s *KeyStore) ListKeyRings() (rings []string, err error) {
 		s.log.WithError(err).Debug("failed to list key rings")
 		return nil, err
 	}
+	// Only "*.keyring" paths are key rings. Anything else is not ours to describe, in particular
+	// a "*.keyring.new" temporary file left behind by an interrupted update of a key ring.
+	keyRings := rings[:0]
 	for i := range rings {
-		rings[i] = strings.TrimSuffix(rings[i], keyringSuffix)
+		if !strings.HasSuffix(rings[i], keyringSuffix) {
+			s.log.WithField("path", rings[i]).Debug("ignoring path which is not a key ring")
+			continue
+		}
+		keyRings = append(keyRings, strings.TrimSuffix(rings[i], keyringSuffix))
 	}
-	return rings, nil
+	return keyRings, nil
 }
 
 // DescribeKeyRing describes key ring by its purpose path.
